@@ -1,2 +1,2 @@
-#include "hist_more.hh"
+#include "hist_fault_ops.hh"
 namespace sim { RunResult hist_execute_poly(const Plan &p) { RunResult r; { HistRun<PolyMesh> h(p, r.st); RunResult x = h.run(); x.st = std::move(r.st); return x; } } }
